@@ -789,7 +789,8 @@ pixman_transform_from_pixman_f_transform (struct pixman_transform *        t,
 	for (i = 0; i < 3; i++)
 	{
 	    double d = ft->m[j][i];
-	    if (d < -32767.0 || d > 32767.0)
+	    /* written so that a NaN is refused as well */
+	    if (!(d >= -32767.0 && d <= 32767.0))
 		return FALSE;
 	    d = d * 65536.0 + 0.5;
 	    t->matrix[j][i] = (pixman_fixed_t) floor (d);
